@@ -164,6 +164,7 @@ type World struct {
 	Invs          []*Inv
 	Count         map[int]int
 	Faults        map[[2]int]Fault
+	resume        func() error // see Resume
 	CloseErr      map[int]error
 	CloseFailRegs map[int]bool // every instance of these registrations fails in Close
 	// CancelBuildOnFault: the constructor that is made to fail first cancels the context its
@@ -970,66 +971,84 @@ func (w *World) RegisterAll(c godi.Collection, order []int) error {
 		}
 	}
 	standInIdent := func(r *Reg) Ident { return r.AllProvides()[0].Ident }
-	for n, i := range order {
-		for _, si := range standInAt[n] {
-			r := &w.Cfg.Regs[si]
-			id := standInIdent(r)
-			ctor := w.ThrowawayCtor(id.T, "the stand-in that "+r.String()+" replaced")
-			var opts []godi.AddOption
-			if id.Key != "" {
-				opts = append(opts, godi.Name(id.Key))
+	var from func(start int) error
+	from = func(start int) error {
+		for n := start; n < len(order); n++ {
+			i := order[n]
+			if w.Cfg.LateDuringBuild && n == w.Cfg.PreBuild && n > 0 && start < n {
+				// the remaining registration calls are issued by another goroutine while Build runs (Runner.Build)
+				w.resume = func() error { return from(n) }
+				return nil
 			}
-			var err error
-			switch r.StandInLife {
-			case Singleton:
-				err = c.AddSingleton(ctor, opts...)
-			case Scoped:
-				err = c.AddScoped(ctor, opts...)
-			default:
-				err = c.AddTransient(ctor, opts...)
-			}
-			if err != nil {
-				return fmt.Errorf("register stand-in for %s: %w", r.String(), err)
-			}
-		}
-		if r := &w.Cfg.Regs[i]; standInOK(r) {
-			if id := standInIdent(r); id.Key != "" {
-				c.RemoveKeyed(RType(id.T), id.Key)
-			} else {
-				c.Remove(RType(id.T))
-			}
-		}
-		for gi, g := range w.Cfg.Ghosts {
-			if g.At == n || (n == 0 && g.At < 0) {
-				if err := w.registerGhost(c, gi, g); err != nil {
-					return fmt.Errorf("register %s: %w", g, err)
+			for _, si := range standInAt[n] {
+				r := &w.Cfg.Regs[si]
+				id := standInIdent(r)
+				ctor := w.ThrowawayCtor(id.T, "the stand-in that "+r.String()+" replaced")
+				var opts []godi.AddOption
+				if id.Key != "" {
+					opts = append(opts, godi.Name(id.Key))
 				}
-				ghosts = append(ghosts, liveGhost{g, g.Span})
+				var err error
+				switch r.StandInLife {
+				case Singleton:
+					err = c.AddSingleton(ctor, opts...)
+				case Scoped:
+					err = c.AddScoped(ctor, opts...)
+				default:
+					err = c.AddTransient(ctor, opts...)
+				}
+				if err != nil {
+					return fmt.Errorf("register stand-in for %s: %w", r.String(), err)
+				}
 			}
+			if r := &w.Cfg.Regs[i]; standInOK(r) {
+				if id := standInIdent(r); id.Key != "" {
+					c.RemoveKeyed(RType(id.T), id.Key)
+				} else {
+					c.Remove(RType(id.T))
+				}
+			}
+			for gi, g := range w.Cfg.Ghosts {
+				if g.At == n || (n == 0 && g.At < 0) {
+					if err := w.registerGhost(c, gi, g); err != nil {
+						return fmt.Errorf("register %s: %w", g, err)
+					}
+					ghosts = append(ghosts, liveGhost{g, g.Span})
+				}
+			}
+			if n == w.Cfg.PreBuild && n > 0 && !w.Cfg.LateDuringBuild {
+				w.inPreBuild.Store(true)
+				w.preBuild(c)
+				w.inPreBuild.Store(false)
+			}
+			if err := w.Register(c, &w.Cfg.Regs[i]); err != nil {
+				return fmt.Errorf("register %s: %w", w.Cfg.Regs[i].String(), err)
+			}
+			kept := ghosts[:0]
+			for _, lg := range ghosts {
+				if lg.left <= 0 {
+					removeGhost(lg.g)
+					continue
+				}
+				lg.left--
+				kept = append(kept, lg)
+			}
+			ghosts = kept
 		}
-		if n == w.Cfg.PreBuild && n > 0 {
-			w.inPreBuild.Store(true)
-			w.preBuild(c)
-			w.inPreBuild.Store(false)
-		}
-		if err := w.Register(c, &w.Cfg.Regs[i]); err != nil {
-			return fmt.Errorf("register %s: %w", w.Cfg.Regs[i].String(), err)
-		}
-		kept := ghosts[:0]
 		for _, lg := range ghosts {
-			if lg.left <= 0 {
-				removeGhost(lg.g)
-				continue
-			}
-			lg.left--
-			kept = append(kept, lg)
+			removeGhost(lg.g)
 		}
-		ghosts = kept
+		return nil
 	}
-	for _, lg := range ghosts {
-		removeGhost(lg.g)
-	}
-	return nil
+	return from(0)
+}
+
+// Resume returns the registration calls RegisterAll left for the time of the Build
+// (Config.LateDuringBuild), once; nil when there are none.
+func (w *World) Resume() func() error {
+	f := w.resume
+	w.resume = nil
+	return f
 }
 
 // standInOK: the registration has a stand-in and still has the shape stand-ins exist for (a
